@@ -1,0 +1,111 @@
+//go:build verif && arm64
+
+// Contracts for the arm64 Go glue of SM4-GCM (sm4_gcm_arm64.go), read by /verif (govc loads the package
+// with GOARCH=arm64). Comments only. They override the amd64 contracts of the same function names.
+
+package sm4
+
+//@ func sm4.ensureCapacity
+//@ mode bv
+//@ requires asked: 0 <= asked && asked <= 1099511627776
+//@ case room: cap(array) - len(array) >= asked
+//@ case grow: cap(array) - len(array) < asked
+//@ ensures len: len(head) == len(array) + asked
+//@ ensures tail: len(tail) == asked && cap(tail) >= asked && cap(head) >= len(array) + asked
+//@ ensures prefix: forall(i, 0, len(array), head[i] == old(array[i]))
+//@ assigns nothing
+
+//@ func sm4.fillSingleBlock
+//@ mode bv
+//@ requires dst: len(dst) >= 16
+//@ requires src: len(src) >= 12
+//@ assigns dst[0:16]
+
+//@ func sm4.fillCounter16
+//@ mode bv
+//@ requires dst: len(dst) >= 16
+//@ requires src: len(src) >= 16
+//@ assigns dst[0:16]
+
+//@ func sm4.fillCounter32
+//@ mode bv
+//@ requires dst: len(dst) >= 32
+//@ requires src: len(src) >= 16
+//@ assigns dst[0:32]
+
+//@ func sm4.fillCounter64
+//@ mode bv
+//@ requires dst: len(dst) >= 64
+//@ requires src: len(src) >= 16
+//@ assigns dst[0:64]
+
+//@ func sm4.fillCounter128
+//@ mode bv
+//@ requires dst: len(dst) >= 128
+//@ requires src: len(src) >= 16
+//@ assigns dst[0:128]
+
+//@ func sm4.fillCounter256
+//@ mode bv
+//@ requires dst: len(dst) >= 256
+//@ requires src: len(src) >= 16
+//@ assigns dst[0:256]
+
+//@ func sm4.cryptoBlockAsmX16
+//@ mode bv
+//@ requires rk: span(rk) >= 32
+//@ requires dst: span(dst) >= 256
+//@ requires src: span(src) >= 256
+//@ assigns mem(dst, 256)
+
+//@ func (*sm4.sm4GcmAsm).cryptoBlocks
+//@ mode bv
+//@ requires rk: len(roundKeys) == 32
+//@ requires out: len(out) >= len(in)
+//@ requires ctr: len(preCounter) == 16
+//@ requires max: len(in) <= 68719476704
+//@ loop 1
+//@ invariant i: 0 <= i && i <= blocks256 && blockCount == 16 * i
+//@ invariant sl: len(in) == l - 256 * i && len(out) >= len(in)
+//@ loop 2
+//@ invariant j: 0 <= i && i <= remainder
+
+//@ func (*sm4.sm4GcmAsm).gHashUpdate
+//@ mode bv
+//@ requires h: len(H) >= 16
+//@ requires tag: len(tag) >= 16
+//@ assigns tag[0:16]
+
+//@ func (*sm4.sm4GcmAsm).gHashFinish
+//@ mode bv
+//@ requires h: len(H) >= 16
+//@ requires tag: len(tag) >= 16
+//@ assigns tag[0:16]
+
+//@ func (*sm4.sm4GcmAsm).calculateFirstCounter
+//@ mode bv
+//@ requires h: len(H) >= 16
+//@ requires ctr: len(counter) == 16
+//@ assigns counter[0:16]
+
+// The arm64 Seal/Open: memory safety, result length and preservation of dst's prefix (thin contracts; the
+// values computed are outside this check, and arm64 code cannot be executed in this sandbox).
+//@ func (*sm4.sm4GcmAsm).Seal
+//@ mode bv
+//@ requires wf: len(g.roundKeys) == 32 && 12 <= g.tagSize && g.tagSize <= 16
+//@ panics_if len(nonce) != g.nonceSize || len(plaintext) > 68719476704
+//@ case room: cap(dst) - len(dst) >= len(plaintext) + g.tagSize
+//@ case grow: cap(dst) - len(dst) < len(plaintext) + g.tagSize
+//@ ensures len: len(result) == len(dst) + len(plaintext) + g.tagSize
+//@ ensures prefix: forall(i, 0, len(dst), result[i] == old(dst[i]))
+
+//@ func (*sm4.sm4GcmAsm).Open
+//@ mode bv
+//@ requires wf: len(g.roundKeys) == 32 && g.tagSize <= 16
+//@ panics_if len(nonce) != g.nonceSize || g.tagSize < 12
+//@ case room: cap(dst) - len(dst) >= len(ciphertext) - g.tagSize
+//@ case grow: cap(dst) - len(dst) < len(ciphertext) - g.tagSize
+//@ ensures short: len(ciphertext) < g.tagSize ==> result0 == nil && nonnil(result1)
+//@ ensures ok: !nonnil(result1) ==> len(result0) == len(dst) + len(ciphertext) - g.tagSize
+//@ ensures okprefix: !nonnil(result1) ==> forall(i, 0, len(dst), result0[i] == old(dst[i]))
+//@ ensures fail: nonnil(result1) ==> result0 == nil
